@@ -64,3 +64,9 @@ Theorem c17_execute_panicked_before_the_repair :
   (exists w, execute_req true KInternal = Panic w) /\ (exists w, execute_req true (KPrepare KClient) = Panic w).
 Proof. exact execute_panicked_before_the_repair. Qed.
 Print Assumptions c17_execute_panicked_before_the_repair.
+
+(** Every place where the source calls [panic] (list regenerated from the source on every run) is one
+    of the examined sites that no peer-controlled input reaches. *)
+Theorem c17_every_explicit_panic_is_an_examined_one : unaudited_panic_sites = [].
+Proof. vm_compute. reflexivity. Qed.
+Print Assumptions c17_every_explicit_panic_is_an_examined_one.
